@@ -1,0 +1,8 @@
+//go:build verif
+
+package utils
+
+// Verification hook (build tag verif): exposes genCombinations.
+func VerifGenCombinations(priorities []uint) [][]uint {
+	return genCombinations(priorities)
+}
